@@ -21,15 +21,17 @@ LEVEL = 'exploration'
 TECHNIQUE = ('property-based testing (Hypothesis): model + build-file-derived '
              'oracle on the member list of the archive produced by the real '
              'dist target, and round trip (unpack, configure, compare)')
-RULE = ('Scripts composed of 18 optional features: sources, header_directory '
-        'with include pattern, header_file, generic_file, man_page, '
+RULE = ('Scripts composed of 19 optional features: sources, header_directory '
+        'with include pattern (also as a system directory), header_file, '
+        'generic_file, man_page, '
         'extra_dist(files, dirs), find_files with extra / filter_by_platform '
         '(platform suffixes and per-platform directories) / '
         'cache=False, dist=False markers (source_file, generic_file, '
         'find_files), submodules (build.bfg and options.bfg), generated '
         'sources, command(files=), copy_file, extra_deps.  Non-trivial: >= 4 '
         'features incl. a find_files variant or a dist=False marker; distinct '
-        '= feature set.')
+        '= feature set.  The archive is made through dist, dist-gzip, '
+        'dist-bzip2 or dist-zip.')
 LEVEL_TEXT = ('Generated-input search: required members, forbidden members '
               '(dist=False, build directory) and the configure round trip of '
               'the unpacked archive are checked for every generated feature '
@@ -40,7 +42,7 @@ ASSUMPTIONS = ['files that no script mentions may or may not be in the '
                'archive (the property only bounds from below and forbids '
                'dist=False / build-directory files)']
 
-FEATURES = ['hdrdir', 'hdrfile', 'generic', 'man', 'extra_dist', 'find',
+FEATURES = ['hdrdir', 'syshdrdir', 'hdrfile', 'generic', 'man', 'extra_dist', 'find',
             'find_platform', 'find_platform_dirs', 'find_nocache', 'nodist_src',
             'nodist_generic',
             'nodist_find', 'submodule', 'opt_submodule', 'generated',
@@ -52,6 +54,8 @@ def cases(draw):
     feats = draw(st.lists(st.sampled_from(FEATURES), min_size=1,
                           max_size=len(FEATURES), unique=True))
     return {'features': sorted(feats),
+            'format': draw(st.sampled_from(['dist', 'dist', 'dist-gzip',
+                                            'dist-bzip2', 'dist-zip'])),
             'nsrc': draw(st.integers(1, 3)),
             'regen_first': draw(st.booleans())}
 
@@ -79,6 +83,17 @@ def render(case, src):
         L.append("inc = header_directory('include', include='**/*.h')")
         kw.append('includes=[inc]')
         req |= {'include/api.h', 'include/sub/deep.h'}
+    if 'syshdrdir' in F:
+        # vendored headers used as a system include directory
+        files['vendor/tiny.h'] = '/* tiny */\n'
+        files['vendor/detail/impl.h'] = '/* impl */\n'
+        L.append("vinc = header_directory('vendor', include='**/*.h', "
+                 "system=True)")
+        kw.append('includes=[vinc]' if 'hdrdir' not in F else '')
+        if 'hdrdir' in F:
+            kw[kw.index('includes=[inc]')] = 'includes=[inc, vinc]'
+            kw.remove('')
+        req |= {'vendor/tiny.h', 'vendor/detail/impl.h'}
     if 'hdrfile' in F:
         files['cfg.h'] = '/* cfg */\n'
         L.append("cfg = header_file('cfg.h')")
@@ -212,7 +227,8 @@ def prop_dist(rec):
         interesting = len(F) >= 4 and (
             F & {'find', 'find_platform', 'find_nocache', 'nodist_src',
                  'nodist_generic', 'nodist_find'})
-        rec.case({'f:' + f for f in F} | (
+        rec.case({'f:' + f for f in F} | {'target:' + case.get('format',
+                                                                'dist')} | (
             {'regenerated-before-dist'} if case.get('regen_first') and
             F & {'find', 'find_platform'} else set()),
                  nontrivial=(sorted(F) if interesting else None), sample=case)
@@ -239,24 +255,35 @@ def prop_dist(rec):
                     sandbox.write_file(os.path.join(src, 'plat/late.c'),
                                        'int late(void){return 0;}\n')
                     req.add('plat/late.c')
-            d = sandbox.run_make(bld, env, ['dist'])
-            tgz = os.path.join(bld, 'c18-1.0.tar.gz')
+            fmt = case.get('format', 'dist')
+            d = sandbox.run_make(bld, env, [fmt])
+            tgz = os.path.join(bld, 'c18-1.0' + {
+                'dist-bzip2': '.tar.bz2', 'dist-zip': '.zip'}.get(
+                    fmt, '.tar.gz'))
             if d.rc != 0 or not os.path.exists(tgz):
-                raise Violation('dist/target-failed', 'make dist: exit {}: {}'
-                                .format(d.rc, d.err.strip()[-600:]), case)
-            with tarfile.open(tgz) as tf:
-                names = tf.getnames()
-                members = set()
-                for m in tf.getmembers():
-                    n = posixpath.normpath(m.name)
-                    if not (n == 'c18-1.0' or n.startswith('c18-1.0/')):
-                        raise Violation('dist/prefix', 'member {!r} outside '
-                                        'the distribution prefix'.format(
-                                            m.name), case)
-                    if m.isfile():
-                        members.add(n[len('c18-1.0/'):])
-                unp = os.path.join(tmp, 'unp')
-                tf.extractall(unp)
+                raise Violation('dist/target-failed', 'make {}: exit {}: {}'
+                                .format(fmt, d.rc, d.err.strip()[-600:]),
+                                case)
+            unp = os.path.join(tmp, 'unp')
+            members = set()
+            if fmt == 'dist-zip':
+                import zipfile
+                with zipfile.ZipFile(tgz) as zf:
+                    entries = [(i.filename, not i.is_dir())
+                               for i in zf.infolist()]
+                    zf.extractall(unp)
+            else:
+                with tarfile.open(tgz) as tf:
+                    entries = [(m.name, m.isfile()) for m in tf.getmembers()]
+                    tf.extractall(unp)
+            for name, isfile in entries:
+                n = posixpath.normpath(name)
+                if not (n == 'c18-1.0' or n.startswith('c18-1.0/')):
+                    raise Violation('dist/prefix', 'member {!r} outside '
+                                    'the distribution prefix'.format(name),
+                                    case)
+                if isfile:
+                    members.add(n[len('c18-1.0/'):])
             # what the build file itself reads from srcdir
             rel = make_relation(bld, src, env)
             from_makefile = set()
